@@ -170,7 +170,11 @@ def check_S3(ctx, facts):
         ctx.bad('C01.S3', 'repair_members', '', 'repair_members not found')
     bs = [b for b in facts.bodies.values() if b.kind == 'coroutine' and re.match(re.escape(P) + r'begin_keyspace_sync::\{closure#0\}(::\{closure#0\})?$', b.name)
           and any(cname(t) == P + 'handle_removals' for _b, t in b.calls())]
-    for body in bs:
+    # SEM: the supervision interpreted against scripted progress histories and both outcomes of the removal task (sync_abs); subsumes the
+    # three begin_keyspace_sync clauses below, which are evaluated only when a construct is not modelled
+    import sync_abs
+    sup_sem = sync_abs.check_supervision(ctx, facts, 'C01.S3.SEM')
+    for body in ([] if sup_sem else bs):
         flow = Flow(body)
         calls = list(body.calls())
         oks = ok_return_blocks(body)
@@ -213,7 +217,7 @@ def check_S3(ctx, facts):
                'Ok is dominated by the is_done() edge of the progress watcher' if gd else 'Ok can be returned before the modification task reported done')
         ctx.ob('C01.S3', 'begin_keyspace_sync|expiry-is-error', ge, site(body),
                'on expiry the exchange leaves with an error without reaching Ok' if ge else 'an expired exchange can still report Ok')
-    if not bs:
+    if not bs and not sup_sem:
         ctx.bad('C01.S3', 'begin_keyspace_sync', '', 'begin_keyspace_sync body not found')
     hm = [b for b in facts.bodies.values() if b.kind == 'coroutine' and b.name.startswith(P + 'handle_modified::{closure#0}')
           and any(cname(t) and cname(t).endswith('ProgressTracker::set_done') for _b, t in b.calls())]
